@@ -87,6 +87,8 @@ HOME = {
 TARGETS = list(GL.TARGETS) + [
     # ---- group bv: the accessors of BitVector and of its DataLine that the rank/select structures use
     ("src/bitvector/mod.rs", "DataLine", "get_word", "g_bline_get_word", {}),
+    ("src/bitvector/mod.rs", "DataLine", "n_ones", "g_bline_n_ones", {}),
+    ("src/bitvector/mod.rs", "DataLine", "n_zeros", "g_bline_n_zeros", {}),
     ("src/bitvector/mod.rs", "DataLine", "rank1_unchecked", "g_bline_rank1_unchecked", {}),
     ("src/bitvector/mod.rs", "DataLine", "rank1", "g_bline_rank1", {}),
     ("src/bitvector/mod.rs", "DataLine", "select1_unchecked", "g_bline_select1_unchecked", {}),
@@ -98,6 +100,7 @@ TARGETS = list(GL.TARGETS) + [
     ("src/bitvector/mod.rs", "BitVector", "get", "g_bv_get", {}),
     ("src/bitvector/mod.rs", "BitVector", "get_word", "g_bv_get_word", {}),
     # ---- group rsn2: RSNarrow queries
+    ("src/bitvector/rs_narrow.rs", "RSNarrow", "new", "g_rsn_new", {}),
     ("src/bitvector/rs_narrow.rs", "RSNarrow", "rank1_unchecked", "g_rsn_rank1_unchecked", {}),
     ("src/bitvector/rs_narrow.rs", "RSNarrow", "rank1", "g_rsn_rank1", {}),
     ("src/bitvector/rs_narrow.rs", "RSNarrow", "n_ones", "g_rsn_n_ones", {}),
@@ -109,6 +112,7 @@ TARGETS = list(GL.TARGETS) + [
     ("src/bitvector/rs_narrow.rs", "RSNarrow", "select1", "g_rsn_select1", {}),
     ("src/bitvector/rs_narrow.rs", "RSNarrow", "select0", "g_rsn_select0", {}),
     # ---- group rsw2: RSWide queries
+    ("src/bitvector/rs_wide.rs", "RSWide", "new", "g_rsw_new", {}),
     ("src/bitvector/rs_wide.rs", "RSWide", "n_zeros", "g_rsw_n_zeros", {}),
     ("src/bitvector/rs_wide.rs", "RSWide", "n_ones", "g_rsw_n_ones", {}),
     ("src/bitvector/rs_wide.rs", "RSWide", "rank1_unchecked", "g_rsw_rank1_unchecked", {}),
@@ -285,7 +289,7 @@ GROUP_IMPORTS = {
 
 GL.RESERVED |= set("""while_loop for_loop iter_loop Next Brk Ret Done Retd len concat ounwrap wshl wshr fsqrt fuel Some
     None option step fin r s v zwrap ziadd zisub zimul zineg zshamt Z left right inl inr pair fst snd S O nil cons xH xO xI N0 Npos
-    Z0 Zpos Zneg eq_refl conj I opt_ltb nthN wT for_loop_rev checked_add obsearch_fst""".split())
+    Z0 Zpos Zneg eq_refl conj I opt_ltb nthN wT for_loop_rev checked_add obsearch_fst iteri_loop ofold push_at""".split())
 
 
 # ------------------------------------------------------------------------------ item index with trait info
@@ -480,6 +484,9 @@ class Parser5(Parser):
             if name == "Self" and self.at("::", 1) and self.at("Item", 2):
                 self.i += 3
                 return ("struct", "T")
+            if name == "Self":
+                self.i += 1
+                return ("struct", "Self")
             if name[:1].isupper() and name not in ("Self",):
                 self.i += 1
                 if self.at("<"):
@@ -582,6 +589,35 @@ class Parser5(Parser):
                 c = self.expr_nostruct()
                 stmts.append(("while", c, self.loop_body()))
                 self.accept(";")
+            elif self.at("for") and (self.at("(", 1) or self.at("&", 1) or (self.peek(1).kind == "id" and self.at("in", 2)
+                                                                             and self.for_over_iter(3))):
+                # for (i, &x) in L.iter().enumerate() { } / for &x in L.iter() { } / for x in L.iter() { }
+                self.i += 1
+                ivar = None
+                if self.accept("("):
+                    ivar = self.ident()
+                    self.expect(",")
+                    self.accept("&")
+                    self.accept("mut")
+                    xvar = self.ident()
+                    self.expect(")")
+                else:
+                    self.accept("&")
+                    self.accept("mut")
+                    xvar = self.ident()
+                self.expect("in")
+                e = self.expr_nostruct()
+                body = self.loop_body()
+                self.accept(";")
+                enum = False
+                if e[0] == "mcall" and e[2] == "enumerate" and not e[3]:
+                    e, enum = e[1], True
+                if not (e[0] == "mcall" and e[2] == "iter" and not e[3]):
+                    self.fail("`for` over something else than `L.iter()` / `L.iter().enumerate()` / a range")
+                if enum != (ivar is not None):
+                    self.fail("`for` pattern against its iterator")
+                stmts.append(("foriter", ivar, xvar, e[1], body))
+                continue
             elif self.accept("for"):
                 self.accept("mut")
                 x = self.ident()
@@ -677,6 +713,23 @@ class Parser5(Parser):
                     self.fail("expression statement")
         return ("block", stmts, tail)
 
+    def for_over_iter(self, k):
+        """the `for x in` header at offset k is followed by an expression ending in .iter() / .enumerate() before `{`"""
+        j = self.i + k
+        depth = 0
+        last = []
+        while self.t[j].kind != "eof":
+            tx = self.t[j].text if self.t[j].kind in ("op", "id") else ""
+            if tx in ("(", "["):
+                j = match_close(self.t, j)
+            elif tx == "{":
+                break
+            elif tx == "..":
+                return False
+            last.append(tx)
+            j += 1
+        return "iter" in last
+
     def cfg_eval(self, toks):
         """cfg predicate for the configuration the checks build: x86_64, feature "prefetch" enabled"""
         txt = "".join(toks)
@@ -703,6 +756,19 @@ class Parser5(Parser):
 
     def primary(self):
         t0 = self.peek()
+        if t0.kind == "id" and t0.text == "Self" and self.at("{", 1) and (self.peek(2).kind == "id" and (self.at(",", 3) or self.at(":", 3) or self.at("}", 3))):
+            self.i += 2
+            fields = []
+            while not self.at("}"):
+                f = self.ident()
+                if self.accept(":"):
+                    fields.append((f, self.expr()))
+                else:
+                    fields.append((f, ("var", f)))
+                if not self.accept(","):
+                    break
+            self.expect("}")
+            return ("structlit", "Self", fields)
         if t0.kind == "str":
             self.i += 1
             return ("str", t0.text)
@@ -715,6 +781,8 @@ class Parser5(Parser):
                 self.i += 1
             self.expect("|")
             return ("closure", pat, self.expr())
+        if t0.kind == "op" and t0.text == "||":
+            self.fail("closure without parameters")
         if self.at("if") and self.at("let", 1):
             self.i += 2
             if not (self.at("Some") and self.at("(", 1)):
@@ -750,6 +818,17 @@ class Parser5(Parser):
                     self.i += 1
                     continue
                 name = self.ident()
+                if self.at("::") and self.at("<", 1):
+                    # turbofish: skipped (the target type is what the context requires)
+                    self.i += 1
+                    depth = 0
+                    while True:
+                        tk = self.peek()
+                        x = tk.text if tk.kind == "op" else ""
+                        depth += {"<": 1, ">": -1, ">>": -2}.get(x, 0)
+                        self.i += 1
+                        if depth <= 0:
+                            break
                 e = ("mcall", e, name, self.args()) if self.at("(") else ("field", e, name)
             elif self.accept("["):
                 e = ("index", e, self.expr())
@@ -871,6 +950,8 @@ class FnT5(FnTranslator):
     def sub_t(self, t):
         """generic type parameters replaced by the types of the monomorphisation"""
         if isinstance(t, tuple):
+            if t[0] == "struct" and t[1] == "Self" and self.owner:
+                return ("struct", self.owner)
             if t[0] == "struct" and t[1] in self.tsubst:
                 v = self.tsubst[t[1]]
                 return v if v.startswith("@") else ("struct", v)
@@ -1116,6 +1197,29 @@ class FnT5(FnTranslator):
                 return e[1][1], (k[1] if k[0] == "ref" else k)
         return None
 
+    def identity_chain(self, e):
+        """conversions between owned sequence types that do not change the sequence of values: x.into_boxed_slice(),
+        x.into_iter().map(|y| y.into_boxed_slice()).collect::<Vec<_>>().try_into().unwrap() -> x"""
+        if e[0] == "mcall" and e[2] == "into_boxed_slice" and not e[3]:
+            return e[1]
+        if e[0] == "mcall" and e[2] == "unwrap" and not e[3] and e[1][0] == "mcall" and e[1][2] == "try_into" and not e[1][3]:
+            c = e[1][1]
+            if c[0] == "mcall" and c[2] == "collect" and c[1][0] == "mcall" and c[1][2] == "map" and len(c[1][3]) == 1:
+                clo = c[1][3][0]
+                src = c[1][1]
+                if clo[0] == "closure" and len(clo[1]) == 1 and clo[2] == ("mcall", ("var", clo[1][0]), "into_boxed_slice", []) \
+                        and src[0] == "mcall" and src[2] == "into_iter" and not src[3]:
+                    return src[1]
+        return None
+
+    def fold_pattern(self, e):
+        """L.iter().fold(init, |a, x| body) -> (L, init, closure)"""
+        if e[0] == "mcall" and e[2] == "fold" and len(e[3]) == 2 and e[1][0] == "mcall" and e[1][2] == "iter" and not e[1][3]:
+            clo = e[3][1]
+            if clo[0] == "closure" and len(clo[1]) == 3 and clo[1][1] == ",":
+                return e[1][1], e[3][0], clo
+        return None
+
     def popcnt_pattern(self, e):
         """_popcnt64(x as i64) as usize -> x   (the x86_64 intrinsic counts the bits set in its argument)"""
         if e[0] == "cast" and e[2] == "usize" and e[1][0] == "call" and e[1][1] == ["_popcnt64"] and len(e[1][3]) == 1:
@@ -1275,6 +1379,15 @@ class FnT5(FnTranslator):
             return "usize"
         if k == "str":
             return "str"
+        if k == "structlit":
+            return ("record", self.owner, self.unit.rel)
+        if k == "array":
+            return exp if is_list(exp) else None
+        if self.identity_chain(e) is not None:
+            return self.ty(self.identity_chain(e), exp, env)
+        if self.fold_pattern(e) is not None:
+            L, init, clo = self.fold_pattern(e)
+            return self.ty(init, exp, env) or (exp if exp in INT else None)
         if k == "tfield":
             t = self.ty(e[1], None, env)
             if not (isinstance(t, tuple) and t[0] == "tuple" and e[2] < len(t[1])):
@@ -1442,6 +1555,14 @@ class FnT5(FnTranslator):
                     if t:
                         e2[s[1]] = (s[1], t, -1)
                     walk(s[5][1], e2)
+                elif s[0] == "foriter":
+                    e2 = dict(env)
+                    tl = tyq(s[3], env)
+                    if is_list(tl):
+                        e2[s[2]] = (s[2], tl[1], -1)
+                    if s[1]:
+                        e2[s[1]] = (s[1], "usize", -1)
+                    walk(s[4][1], e2)
                 elif s[0] in ("expr", "macro", "return"):
                     expr(s[-1], env)
         env = dict(env)
@@ -1465,9 +1586,13 @@ class FnT5(FnTranslator):
 
     def let_types(self, s, env, bind, rest=None):
         _, pat, ann, init = s
-        if ann is not None and self.sub_t(ann) != ann:
-            s = (s[0], pat, self.sub_t(ann), init)
-            ann = s[2]
+        if ann is not None:
+            a2 = self.sub_t(ann)
+            if isinstance(a2, tuple):
+                a2 = self.norm(a2, self.unit.rel)
+            if a2 != ann:
+                s = (s[0], pat, a2, init)
+                ann = a2
         if ann is None and init is not None and init[0] == "call" and init[1] in (["Vec", "with_capacity"], ["Vec", "new"]) \
                 and isinstance(pat, str) and rest is not None:
             t = self.later_type(pat, rest, env)
@@ -1490,7 +1615,7 @@ class FnT5(FnTranslator):
 
     def recv_sig(self, e, env):
         rt = self.ty(e[1], None, env)
-        if isinstance(rt, tuple) and rt[0] == "record":
+        if isinstance(rt, tuple) and rt[0] in ("record", "recparam"):
             return self.method_sig(rt[1], rt[2], e[2])
         # a one-field struct value: find which struct by the syntactic type of the receiver
         st = self.struct_type_of(e[1], env)
@@ -1515,6 +1640,12 @@ class FnT5(FnTranslator):
             return (self.owner, self.unit.rel)
         if k == "var":
             return self.nominal.get(e[1]) if e[1] in env else None
+        if k == "field" and e[1][0] == "var" and e[1][1] in env and isinstance(env[e[1][1]][1], tuple) \
+                and env[e[1][1]][1][0] == "recparam":
+            ent = env[e[1][1]][1][3].get(e[2])
+            if ent and isinstance(ent[2], tuple) and ent[2][0] == "struct":
+                return (ent[2][1], self.struct_unit(ent[2][1], ent[3]).rel)
+            return None
         if k == "block" and not e[1] and e[2] is not None:
             return self.struct_type_of(e[2], env)
         if k == "field":
@@ -1523,12 +1654,29 @@ class FnT5(FnTranslator):
                 return None
             t, rel = self.raw_chain_type(names)
             return (t[1], self.struct_unit(t[1], rel).rel) if isinstance(t, tuple) and t[0] == "struct" else None
+        if (k == "index" or (k == "mcall" and e[2] in ("get_unchecked", "get"))) and self.elem_struct(e[1], env) is not None:
+            return self.elem_struct(e[1], env)
         if k == "index" or (k == "mcall" and e[2] in ("get_unchecked", "get")):
             names = self.chain(e[1])
             if names is None:
                 return None
             t, rel = self.raw_chain_type(names)
             if is_list(t) and isinstance(t[1], tuple) and t[1][0] == "struct":
+                return (t[1][1], self.struct_unit(t[1][1], rel).rel)
+        return None
+
+    def elem_struct(self, e, env):
+        """(struct, rel) of the elements of the list expression e when they are one-field structs (a field of a struct
+        parameter)"""
+        if e[0] == "field" and e[1][0] == "var" and e[1][1] in env and isinstance(env[e[1][1]][1], tuple) \
+                and env[e[1][1]][1][0] == "recparam":
+            ent = env[e[1][1]][1][3].get(e[2])
+            if ent and is_list(ent[2]) and isinstance(ent[2][1], tuple) and ent[2][1][0] == "struct":
+                return (ent[2][1][1], self.struct_unit(ent[2][1][1], ent[3]).rel)
+        names = self.chain(e) if e[0] == "field" else None
+        if names:
+            t, rel = self.raw_chain_type(names)
+            if is_list(t) and isinstance(t[1], tuple) and t[1][0] == "struct" and not self.is_record(t[1], rel):
                 return (t[1][1], self.struct_unit(t[1][1], rel).rel)
         return None
 
@@ -1606,6 +1754,44 @@ class FnT5(FnTranslator):
             x = self.popcnt_pattern(e)
             self.need(x, "u64", env, "u64")
             return app("popcount", self.val(x, "u64", cx)), True
+        if k == "structlit":
+            given = dict(e[2])
+            vals = []
+            for fname, fty in self.fields_of(self.owner)[1]:
+                if fname not in given:
+                    self.fail("struct literal without the field `%s`" % fname)
+                fe = given[fname]
+                if isinstance(fty, tuple) and fty[0] == "struct" and self.is_record(fty):
+                    if not (fe[0] == "var" and fe[1] in env and isinstance(env[fe[1]][1], tuple) and env[fe[1]][1][0] == "recparam"):
+                        self.fail("struct-valued field `%s` of a struct literal (only a struct parameter moved in)" % fname)
+                    lists = env[fe[1]][1][3]
+                    for pp, _ in self.leaf_paths(fty, self.unit):
+                        vals.append(lists[pp[0]][0])
+                else:
+                    nt = self.norm(fty, self.unit.rel)
+                    self.need(fe, nt, env, nt)
+                    vals.append(self.val(fe, nt, cx))
+            return "(" + ", ".join(vals) + ")", True
+        if k == "array":
+            t = self.ty(e, exp, env)
+            if not is_list(t):
+                self.fail("array literal whose type is not given")
+            return "[" + "; ".join(self.val(x, t[1], cx) for x in e[1]) + "]", True
+        if self.identity_chain(e) is not None:
+            return self.emit(self.identity_chain(e), exp, cx)
+        if self.fold_pattern(e) is not None:
+            L, init, clo = self.fold_pattern(e)
+            ta = self.need(e, exp, env)
+            tl = self.ty(L, None, env)
+            if not is_list(tl):
+                self.fail("fold over %s" % (tl,))
+            lv = self.val(L, None, cx)
+            iv = self.val(init, ta, cx)
+            a, x = clo[1][0], clo[1][2]
+            sub = Cx(self, env, cx.depth + 1)
+            ac, xc = sub.bind(a, ta), sub.bind(x, tl[1])
+            body = self.block_val(clo[2], ta, sub)
+            return "ofold (fun %s %s =>\n%s) %s %s" % (ac, xc, "\n".join("    " + l for b in body for l in b.split("\n")), paren(lv), paren(iv)), False
         if k == "tfield":
             t = self.ty(e[1], None, env)
             self.ty(e, exp, env)
@@ -1797,7 +1983,18 @@ class FnT5(FnTranslator):
             if names is not None:
                 r = self.resolve_chain(names) if names else ("record", (), self.owner, self.unit.rel)
             soa = self.soa_recv(recv) if recv is not None else None
-            if r is not None and r[0] == "record":
+            rp = None
+            x = recv
+            while x is not None and (x[0] == "ref" or (x[0] == "un" and x[1] == "*")):
+                x = x[1] if x[0] == "ref" else x[2]
+            if x is not None and x[0] == "var" and x[1] in cx.env and isinstance(cx.env[x[1]][1], tuple) and cx.env[x[1]][1][0] == "recparam":
+                rp = cx.env[x[1]][1][3]
+            if rp is not None:
+                for p in fields:
+                    if len(p) != 1 or p[0] not in rp:
+                        self.fail("call of %s on the struct parameter `%s`" % (sig.coq, x[1]))
+                    fargs.append(rp[p[0]][0])
+            elif r is not None and r[0] == "record":
                 for p in fields:
                     if r[1] + p not in self.path_coq:
                         self.fail("internal: path %s not collected" % (r[1] + p,))
@@ -2042,8 +2239,11 @@ class FnT5(FnTranslator):
                 elif s[0] == "expr":
                     expr(s[1], declared)
                 elif s[0] == "call":
-                    if s[1][2] == "push" and s[1][1][0] == "var":
-                        n = s[1][1][1]
+                    tgt = s[1][1]
+                    if s[1][2] == "push" and tgt[0] == "index" and tgt[1][0] == "var":
+                        tgt = tgt[1]
+                    if s[1][2] == "push" and tgt[0] == "var":
+                        n = tgt[1]
                         if n not in declared and n in env and n not in out:
                             out.append(n)
                     expr(s[1][3], declared)
@@ -2051,6 +2251,8 @@ class FnT5(FnTranslator):
                     walk(s[2][1], declared)
                 elif s[0] == "for":
                     walk(s[5][1], declared | {s[1]})
+                elif s[0] == "foriter":
+                    walk(s[4][1], declared | {s[2]} | ({s[1]} if s[1] else set()))
 
         def expr(e, declared):
             if isinstance(e, tuple) and e:
@@ -2172,7 +2374,7 @@ class FnT5(FnTranslator):
                 return L + flow.ret(self, s[1], cx)
             elif k == "break":
                 return L + flow.brk(self, cx)
-            elif k in ("while", "for"):
+            elif k in ("while", "for", "foriter"):
                 return self.loop(s, rest, tail, cx, flow)
             elif k == "expr" and s[1][0] == "iflet":
                 _, x, oe, th, el = s[1]
@@ -2262,6 +2464,20 @@ class FnT5(FnTranslator):
             self.need(args[0], et, cx.env, et)
             v = self.val(args[0], et, cx)
             cx.lines.append("let %s := %s ++ [%s] in" % (coq, coq, v))
+            return
+        if m == "push" and recv[0] == "index" and recv[1][0] == "var" and recv[1][1] in cx.env and len(args) == 1:
+            coq, t, depth = cx.env[recv[1][1]]
+            if depth != cx.depth:
+                self.fail("push to `%s[..]` from a nested block" % recv[1][1])
+            if not (is_list(t) and is_list(t[1])):
+                self.fail("push to an element of `%s`" % recv[1][1])
+            self.need(recv[2], "usize", cx.env, "usize")
+            iv = self.val(recv[2], "usize", cx)
+            self.need(args[0], t[1][1], cx.env, t[1][1])
+            v = self.val(args[0], t[1][1], cx)
+            cx.lines.append("let! %s := push_at %s %s %s in" % (coq, paren(coq), paren(iv), paren(v)))
+            return
+        if m == "shrink_to_fit" and not args and recv[0] == "var" and recv[1] in cx.env and is_list(cx.env[recv[1]][1]):
             return
         if m.startswith("prefetch"):
             soa = self.soa_recv(recv)
@@ -2355,7 +2571,7 @@ class FnT5(FnTranslator):
 
     def loop(self, s, rest, tail, cx, flow):
         L = cx.lines
-        body = s[2] if s[0] == "while" else s[5]
+        body = s[2] if s[0] == "while" else (s[4] if s[0] == "foriter" else s[5])
         if body[2] is not None:
             self.fail("loop body with a value")
         state = self.assigned_outer(body, cx.env)
@@ -2376,6 +2592,25 @@ class FnT5(FnTranslator):
             clines = ccx.lines + [("Val " + paren(cv)) if pure else cv]
             head = ["let! r := while_loop (fun %s =>" % lam] + ["    " + l for a in clines for l in a.split("\n")] + ["  ) (fun %s =>" % lam]
             bcx = Cx(self, cx.env, cx.depth + 1)
+        elif s[0] == "foriter":
+            _, ivar, xvar, lexpr, _ = s
+            tl = self.ty(lexpr, None, cx.env)
+            if not is_list(tl):
+                self.fail("`for` over a value of type %s" % (tl,))
+            lv = self.val(lexpr, None, cx)
+            bcx = Cx(self, cx.env, cx.depth + 1)
+            est = self.elem_struct(lexpr, cx.env)
+            xc = bcx.bind(xvar, tl[1])
+            if est is not None:
+                self.nominal[xvar] = est
+            else:
+                self.nominal.pop(xvar, None)
+            if ivar is not None:
+                ic = bcx.bind(ivar, "usize")
+                head = ["let! r := iteri_loop (fun %s %s %s =>" % (ic, xc, lam)]
+            else:
+                head = ["let! r := iter_loop (fun %s %s =>" % (xc, lam)]
+            rev = False
         else:
             x, lo, hi, incl = s[1], s[2], s[3], s[4]
             rev = len(s) > 6 and s[6]
@@ -2389,7 +2624,7 @@ class FnT5(FnTranslator):
             if incl:
                 hiv = "%s + 1" % paren(hiv)
             bcx = Cx(self, cx.env, cx.depth + 1)
-            xc = bcx.bind(x, t)
+            xc = bcx.bind(x, t) if x != "_" else "_"
             head = ["let! r := for_loop (fun %s %s =>" % (xc, lam)]
         for n in state:
             bcx.env[n] = (cx.env[n][0], cx.env[n][1], bcx.depth)
@@ -2398,6 +2633,8 @@ class FnT5(FnTranslator):
         init = self.tuple_pat(names)
         if s[0] == "while":
             close = "  ) fuel %s in" % init
+        elif s[0] == "foriter":
+            close = ("  ) 0 %s %s in" if s[1] is not None else "  ) %s %s in") % (paren(lv), init)
         elif rev:
             head[0] = head[0].replace("for_loop ", "for_loop_rev ", 1)
             close = "  ) %s (N.to_nat (%s - %s)) %s in" % (paren(hiv), paren(hiv), paren(lov), init)
@@ -2438,11 +2675,12 @@ class FnT5(FnTranslator):
             if isinstance(nt, tuple) and nt[0] == "record":
                 # a parameter of a struct type with several fields: one parameter per field
                 lists = {}
+                raw = dict(self.fields_of(nt[1], nt[2])[1])
                 for pp, tt in self.leaf_paths(("struct", nt[1]), self.world.unit(nt[2])):
                     if len(pp) != 1:
                         self.fail("parameter `%s` of a nested struct type" % pn)
                     cn = "%s_%s" % (pn, pp[0])
-                    lists[pp[0]] = (cn, tt)
+                    lists[pp[0]] = (cn, tt, raw.get(pp[0]), nt[2])
                     ptys.append(tt)
                     names.append(cn)
                 cx.env[pn] = (None, ("recparam", nt[1], nt[2], lists), 0)
@@ -2458,8 +2696,13 @@ class FnT5(FnTranslator):
         binders = (["(fuel : nat)"] if self.needs_fuel else []) + (["(wT : N)"] if self.needs_w else []) + \
             ["(%s : %s)" % (self.path_coq[p], coq_type5(self.path_ty[p])) for p in self.paths] + \
             ["(%s : %s)" % (n, coq_type5(t)) for n, t in zip(names, ptys)]
+        if isinstance(rett, tuple) and rett[0] == "record":
+            # a struct with several fields is returned as the tuple of its fields, in declaration order
+            rcoq = " * ".join(paren(coq_type5(tt)) for _, tt in self.leaf_paths(("struct", rett[1]), self.world.unit(rett[2])))
+        else:
+            rcoq = coq_type5(rett)
         out = ["(* %s: %s%s *)" % (self.unit.rel, self.header, "   with " + ", ".join("%s = %s" % kv for kv in self.cparams.items()) if self.cparams else ""),
-               "Definition %s %s : outcome %s :=" % (self.coq, " ".join(binders), paren(coq_type5(rett)))]
+               "Definition %s %s : outcome %s :=" % (self.coq, " ".join(binders), paren(rcoq))]
         text = "\n".join("  " + l for ln in lines for l in ln.split("\n"))
         sparams = []
         for pn, pt in self.params:
@@ -2502,8 +2745,8 @@ class LoopFlow:
     def __init__(self, names, outer):
         self.names, self.outer, self.exp = names, outer, None
         o = outer
-        while not isinstance(o, FnFlow):
-            o = o.outer
+        while o is not None and not isinstance(o, FnFlow):
+            o = getattr(o, "outer", None)
         self.fnflow = o
 
     def state(self, tr):
@@ -2512,6 +2755,8 @@ class LoopFlow:
     def ret(self, tr, e, cx):
         if e is None:
             tr.fail("`return;`")
+        if self.fnflow is None:
+            tr.fail("`return` in a loop inside a conditional assignment / value block")
         exp = self.fnflow.exp
         v = tr.val(e, exp, cx)
         tr.need(e, exp, cx.env, exp)
@@ -2531,6 +2776,8 @@ class LoopFlow:
         return "Val (Ret %s)" % v
 
     def none_ret(self, tr):
+        if self.fnflow is None:
+            tr.fail("`?` in a loop inside a conditional assignment / value block")
         self.fnflow.none_ret(tr)
         return "Val (Ret None)"
 
@@ -2555,7 +2802,7 @@ class ValFlow:
         tr.fail("`break` inside a block used as a value")
 
     def retd(self, v):
-        raise Unsupported("loop with `return` inside a block used as a value")
+        return "Val " + v          # unreachable: a loop here cannot contain `return` (checked), its R is unconstrained
 
     def none_ret(self, tr):
         tr.fail("`?` inside a block used as a value")
@@ -2577,7 +2824,7 @@ class EndFlow:
         tr.fail("`break` inside a conditional assignment")
 
     def retd(self, v):
-        raise Unsupported("loop with `return` inside a conditional assignment")
+        return "Val " + v          # unreachable: a loop here cannot contain `return` (checked), its R is unconstrained
 
     def none_ret(self, tr):
         tr.fail("`?` inside a conditional assignment")
